@@ -1168,6 +1168,20 @@ func placeholderRefresh(res *vkit.Result, dir string) {
 		}
 	}
 	os.Unsetenv("VERIF_C17_REFRESH")
+	// names of environment variables are case-sensitive: a placeholder that differs from a set
+	// variable only in letter case names an unset variable
+	os.Setenv("VERIF_C17_CASE", "6s")
+	for _, name := range []string{"verif_c17_case", "Verif_C17_Case", "VERIF_C17_CASe"} {
+		cs := map[string]any{"placeholder": "${env:" + name + "}", "set": "VERIF_C17_CASE=6s"}
+		if got, err := read("${env:" + name + "}"); err == nil {
+			res.Violate("C17/placeholder-refresh/env/other-case-accepted", fmt.Sprintf("no variable %s is set, yet the config was accepted with dial.timeout = %v", name, got), cs)
+		}
+		res.Eval("placeholder-case/"+name, true)
+	}
+	if got, err := read("${env:VERIF_C17_CASE}"); err != nil || got != 6*time.Second {
+		res.Violate("C17/placeholder-refresh/env/valid-config-rejected", fmt.Sprintf("dial.timeout %v, err %v", got, err), map[string]any{"placeholder": "${env:VERIF_C17_CASE}"})
+	}
+	os.Unsetenv("VERIF_C17_CASE")
 }
 
 func main() {
